@@ -249,3 +249,45 @@ def install_gtirb_bytes():
     GB.__dict__["bytearray"] = s_bytearray
     return {"_modify/edit.py": ["len"], "intervalutils.py": ["len"], "rewriting.py": ["len"],
             "gtirb/byteinterval.py": ["len", "bytearray"]}
+
+
+# ---------------------------------------------------------------------------
+# determinism for in-process re-execution: identity-hashed gtirb nodes iterate
+# in a different order on every re-execution; hash them by a counter-based UUID
+# ---------------------------------------------------------------------------
+_UUID_COUNTER = [0]
+
+
+def _det_uuid4():
+    import uuid
+    _UUID_COUNTER[0] += 1
+    return uuid.UUID(int=(0x5EED << 96) | _UUID_COUNTER[0])
+
+
+def _reset_uuid():
+    _UUID_COUNTER[0] = 0
+
+
+def install_determinism():
+    import uuid
+    import gtirb
+    import gtirb.node
+    import gtirb_rewriting._modify.cache as C
+
+    uuid.uuid4 = _det_uuid4
+    gtirb.node.uuid4 = _det_uuid4
+    gtirb.Node.__hash__ = lambda self: hash(self.uuid)
+    serial = [0]
+
+    def refnode_hash(self):
+        h = self.__dict__.get("_symx_serial")
+        if h is None:
+            _UUID_COUNTER[0] += 1
+            h = self.__dict__["_symx_serial"] = _UUID_COUNTER[0]
+        return h
+
+    C.RefNode.__hash__ = refnode_hash
+    if _reset_uuid not in core.PATH_START_HOOKS:
+        core.PATH_START_HOOKS.append(_reset_uuid)
+    return {"uuid.uuid4 / gtirb.node.uuid4": "counter-based UUIDs (reset per path)",
+            "gtirb.Node.__hash__": "hash(uuid) instead of identity", "RefNode.__hash__": "creation serial"}
